@@ -29,7 +29,10 @@ var (
 		3037000499, 3037000500, 1 << 31, 1 << 32, 4294967296 + 1, 1 << 62, math.MaxInt64 - 1, math.MaxInt64}
 	TimeBoundary = []int64{math.MinInt64, math.MinInt64 + 1, math.MinInt64 + 86400000, -86400001, -86400000, -86399999, -1000, -2, -1, 0, 1, 2, 999, 1000,
 		86399999, 86400000, 86400001, 172800000, 1700000000000, -62167219200000, 253402300799999, 253402300800000, -62167219200001,
-		math.MaxInt64 - 86400000, math.MaxInt64 - 1, math.MaxInt64}
+		math.MaxInt64 - 86400000, math.MaxInt64 - 1, math.MaxInt64,
+		// durations whose every component has its full width (12-digit days, two-digit h/m/s, three-digit ms): the longest
+		// renderings are not the ones of the minimum and maximum
+		9223372036828799999, -9223372036828799999, 8640000000036610100, -8640000000036610100}
 	DecimalBoundary = []int64{math.MinInt64, math.MinInt64 + 1, -10000, -9999, -1, 0, 1, 9999, 10000, 10001, 12345, math.MaxInt64 - 1, math.MaxInt64}
 )
 
